@@ -101,6 +101,69 @@ def make_gmrf_case(rng, n, mode):
     return c
 
 
+SCALE_REGIMES = ("W-tiny-weight", "T0-short-intervals", "T0-near-ties", "T1-near-ties", "extreme-field", "extreme-precision")
+
+
+def make_scale_case(rng, n, regime):
+    """scale regimes: weights far below any plausible floor (2^-30, 2^-40), node-height intervals below 1e-6 without
+    rescaling, two nearly simultaneous coalescent events (with and without rescaling), fields and precisions at
+    2^+-20 / 2^+-30 — all dyadic, so the Lean model evaluates them exactly"""
+    mode = {"W": "W", "T0": "T0", "T1": "T1"}.get(regime.split("-")[0], rng.choice(["P", "W", "T0", "T1"]))
+    c = make_gmrf_case(rng, n, mode)
+    c["regime"] = regime
+    if regime == "W-tiny-weight":
+        for i in rng.sample(range(n - 1), min(n - 1, rng.randint(1, 2))):
+            c["weights"][i] = F(1, 2 ** rng.choice([24, 30, 40]))
+    elif regime == "T0-short-intervals":
+        k = F(1, 2 ** rng.choice([24, 30]))
+        c["samp"] = [x * k for x in c["samp"]]
+        c["coal"] = [x * k for x in c["coal"]]
+        # heights handed over directly (FakeTreeModel-style object): TimeTreeModel.json_factory(keep_branch_lengths=True)
+        # lifts every internal node at least 1e-6 above its children, so a newick in such units does not survive that route
+        c.pop("newick", None)
+    elif regime in ("T0-near-ties", "T1-near-ties"):
+        cs = sorted(c["coal"])
+        j = rng.randrange(len(cs) - 1) if len(cs) > 1 else None
+        if j is not None:
+            eps = F(1, 2 ** rng.choice([26, 32]))
+            if j + 2 >= len(cs) or cs[j] + eps < cs[j + 2]:
+                cs[j + 1] = cs[j] + eps
+        # distinct heights only: a zero interval is a zero weight (division by zero, excluded by the hypotheses)
+        if len(set(cs)) == len(cs):
+            c["coal"] = cs
+        c.pop("newick", None)
+    elif regime == "extreme-field":
+        k = F(2) ** rng.choice([-20, 20])
+        c["field"] = [x * k for x in c["field"]]
+    elif regime == "extreme-precision":
+        c["tau"] = F(2) ** rng.choice([-30, 30])
+    return c
+
+
+def exact_sumsq(case):
+    """the weighted sum of squared first differences of the case in exact rational arithmetic (the statement of the
+    property on the mathematical input, independent of the implementation)"""
+    x = case["field"]
+    mode = case["mode"]
+    d = [(a - b) ** 2 for a, b in zip(x, x[1:])]
+    if mode == "P":
+        return sum(d)
+    if mode == "W":
+        w = case["weights"]
+    else:
+        hs = sorted([F(0)] + list(case["coal"]))
+        dur = [b - a for a, b in zip(hs, hs[1:])]
+        w = [(a + b) / 2 for a, b in zip(dur, dur[1:])]
+        if mode == "T1":
+            w = [v / hs[-1] for v in w]
+    return sum(q / ww for q, ww in zip(d, w))
+
+
+def rng_shape(case, key):
+    """shape / rate of the integrated model for a case: the case's own or a fixed dyadic one (replayable)"""
+    return case.get(key, F(11, 8) if key == "shape" else F(5, 4))
+
+
 def tree_for(case, real):
     """object with node_heights / taxa_count; `real`: a TimeTreeModel built from the newick"""
     import torch
@@ -298,6 +361,35 @@ class Runner:
             ck.mismatch("published precision matrix differs from the model", {"case": enc(case)})
         if not close(val, h2f(lv), TOL, scale):
             ck.mismatch("GMRF log density differs from the model", {"case": enc(case), "impl": val, "model": h2f(lv)})
+
+    def scale_exact(self, case):
+        """GMRF and GMRFGammaIntegrated against the closed forms evaluated on the EXACT weighted sum of squares
+        (tolerance relative to the exact value), and against each other through that sum"""
+        n = len(case["field"])
+        d = n - 1
+        S = exact_sumsq(case)
+        tau = float(case["tau"])
+        a, b = F(rng_shape(case, "shape")), F(rng_shape(case, "rate"))
+        gc = dict(case, shape=a, rate=b)
+        try:
+            g, _ = build_gmrf(case)
+            val = float(g().reshape(-1)[0])
+            gi, _ = build_gmrf(gc, cls="GMRFGammaIntegrated")
+            vi = float(gi().reshape(-1)[0])
+        except Exception as e:
+            self.violation(f"GMRF.scale:{case['regime']}:raises", f"GMRF/GMRFGammaIntegrated raise in the regime {case['regime']}: {type(e).__name__}: {str(e)[:120]}", case, n)
+            return
+        want = d / 2 * math.log(tau) - tau * float(S) / 2 - d / 2 * math.log(2 * math.pi)
+        scale = abs(d / 2 * math.log(tau)) + tau * float(S) / 2 + d
+        if not close(val, want, TOL_INT, scale):
+            self.violation(f"GMRF.scale:{case['mode']}", f"GMRF ({case['regime']}, length {n}): log density {val!r}; the Gaussian form on the exact weighted sum of squares gives {want!r}",
+                           case, n, {"impl": val, "exact": want})
+        fa, fb = float(a), float(b)
+        wi = (-d / 2 * math.log(2 * math.pi) + fa * math.log(fb) - math.lgamma(fa) + math.lgamma(fa + d / 2) - (fa + d / 2) * math.log(float(S / 2 + b)))
+        si = abs(fa * math.log(fb)) + abs(math.lgamma(fa)) + abs(math.lgamma(fa + d / 2)) + abs((fa + d / 2) * math.log(float(S / 2 + b))) + d
+        if not close(vi, wi, TOL_INT, si):
+            self.violation(f"GMRFGammaIntegrated.scale:{case['mode']}", f"GMRFGammaIntegrated ({case['regime']}, length {n}) = {vi!r}; the closed form on the exact weighted sum of "
+                           f"squares gives {wi!r}", gc, n, {"impl": vi, "exact": wi})
 
     def gmrf_batched(self, rng, n, mode):
         import torch
@@ -764,6 +856,16 @@ def run(ck: Check):
                     R.guard('gmrf', R.gmrf, case, real_tree=(mode in ("T0", "T1") and n <= 12))
                     if n <= 12 or rng.random() < 0.3:
                         R.guard('gamma_integrated', R.gamma_integrated, rng, case, impl_in_loop=(n <= 4 and mode in ("P", "T1")))
+        # scale regimes: tiny weights, short / nearly tied intervals, extreme fields and precisions
+        for _ in range(2 if not thorough else 6):
+            for n in ([2, 3, 4, 6, 10, 20] if not thorough else [2, 3, 4, 5, 6, 8, 10, 14, 20, 35, 50]):
+                for regime in SCALE_REGIMES:
+                    case = make_scale_case(rng, n, regime)
+                    ck.case(key=("gmrf-scale", regime, tuple(case["field"]), case["tau"], tuple(case.get("weights", [])), tuple(case.get("coal", []))),
+                            bucket=f"gmrf-scale/{regime}/{case['mode']}")
+                    R.guard('gmrf', R.gmrf, case)
+                    R.guard('scale_exact', R.scale_exact, case)
+                    R.guard('gamma_integrated', R.gamma_integrated, rng, case, impl_in_loop=False)
         for n in ([2, 3, 6, 20] if not thorough else [2, 3, 4, 6, 10, 20, 50]):
             for mode in ("P", "W", "T0", "T1"):
                 R.guard('gmrf_batched', R.gmrf_batched, rng, n, mode)
@@ -826,6 +928,8 @@ def replay(path: str) -> int:
     rng = random.Random(0)
     if what == "gmrf":
         R.guard('gmrf', R.gmrf, case)
+        if "regime" in case:
+            R.guard('scale_exact', R.scale_exact, case)
     elif what == "gint":
         R.guard('gamma_integrated', R.gamma_integrated, rng, case, impl_in_loop=False)
     elif what == "cint":
